@@ -168,23 +168,43 @@ def child_sym(mod, cfg, schedule, opts, findings):
             r = z3.sat
             sl = None
         else:
-            sl = z3.Solver()
-            sl.set("timeout", opts["query_timeout_ms"])
-            for k in E._slice(neg):
-                sl.add(k)
-            sl.add(neg)
-            r = sl.check()
-            E.stats["queries"] += 1
-            if r == z3.unknown:
-                # retry once: longer cap, different arithmetic solver configuration
-                sl2 = z3.SolverFor("QF_NRA") if False else z3.Solver()
-                sl2.set("timeout", opts["query_timeout_ms"] * 5)
-                for k in E._slice(neg):
-                    sl2.add(k)
-                sl2.add(neg)
-                r = sl2.check()
-                E.stats["queries"] += 1
-                sl = sl2
+            def _query(negated, timeout):
+                # depth-1 slice first (sound for unsat); a sat answer is confirmed on the full cone
+                for depth in (1, None):
+                    q = z3.Solver()
+                    q.set("timeout", int(timeout))
+                    for k in E._slice(negated, depth):
+                        q.add(k)
+                    q.add(negated)
+                    E.stats["queries"] += 1
+                    rq = q.check()
+                    if rq != z3.sat:
+                        if rq == z3.unknown and depth == 1:
+                            continue
+                        return rq, q
+                return rq, q
+
+            conj = _conjuncts(c, z3)
+            if len(conj) > 1:
+                # a conjunction: first as a whole under a short cap, then conjunct by conjunct
+                r, sl = _query(neg, min(3000, opts["query_timeout_ms"]))
+                if r == z3.unknown:
+                    r = z3.unsat
+                    for cj in conj:
+                        rj, slj = _query(z3.Not(cj), opts["query_timeout_ms"])
+                        if rj == z3.unknown:
+                            rj, slj = _query(z3.Not(cj), opts["query_timeout_ms"] * 5)
+                        if rj == z3.sat:
+                            r, sl, neg = rj, slj, z3.Not(cj)
+                            break
+                        if rj == z3.unknown:
+                            r, sl = rj, slj
+                    entry["split"] = len(conj)
+            else:
+                r, sl = _query(neg, opts["query_timeout_ms"])
+                if r == z3.unknown:
+                    # retry once with a 5x cap
+                    r, sl = _query(neg, opts["query_timeout_ms"] * 5)
         entry["solver_s"] = time.time() - tq
         E.stats["solver_s"] += entry["solver_s"]
         if len(res.get("samples", [])) < 1 and sl is not None:
@@ -228,6 +248,12 @@ def child_sym(mod, cfg, schedule, opts, findings):
                     full.pop()
                     entry["known"] = regions[0][0]["id"]
                     entry["outside_region"] = str(rr)
+            rfull = full.check()
+            E.stats["queries"] += 1
+            if rfull == z3.unsat:
+                entry["verdict"] = "unsat"
+                res["claims"].append(entry)
+                continue
             for k in range(opts["models_per_claim"]):
                 if k == 1:
                     full.set("timeout", 5000)  # extra models are a convenience for replay only
@@ -254,6 +280,18 @@ def child_sym(mod, cfg, schedule, opts, findings):
         res["claims"].append(entry)
     res["stats"] = dict(E.stats, wall=time.time() - t0)
     return res
+
+
+def _conjuncts(c, z3):
+    out = []
+    stack = [c]
+    while stack:
+        x = stack.pop()
+        if z3.is_and(x):
+            stack.extend(x.children())
+        elif not z3.is_true(x):
+            out.append(x)
+    return out
 
 
 def _cfg_match(cfg, pat):
@@ -454,7 +492,7 @@ def run_check(modname, tier, seed, only=None, mutations=None, write_evidence=Tru
         mod.install_stubs()
     configs = mod.configs(tier)
     if only:
-        configs = [c for c in configs if fnmatch.fnmatch(cfg_key(c), f"*{only}*")]
+        configs = [c for c in configs if only in cfg_key(c)]
     findings_open, findings_fixed = load_findings(prop)
     nworkers = opts["workers"] or min(16, os.cpu_count() or 4)
 
@@ -619,6 +657,9 @@ def run_check(modname, tier, seed, only=None, mutations=None, write_evidence=Tru
     # ---------------- report
     if verbose:
         print(f"[timing] replay done at {time.time()-t_start:.1f}s")
+        slow = sorted(((e["solver_s"], e["name"], cfg_key(configs[i])) for i, _s, e in all_claims), reverse=True)[:12]
+        for t_, n_, c_ in slow:
+            print(f"[timing] {t_:8.2f}s {n_} {c_[:100]}")
     n_claims = len(all_claims)
     n_unsat = sum(1 for _, _, e in all_claims if e["verdict"] == "unsat")
     n_sat = sum(1 for _, _, e in all_claims if e["verdict"] == "sat")
